@@ -176,6 +176,13 @@ func c10Run(inI interface{}, env *Env) *Failure {
 	in := inI.(*c10In)
 	env.Count("nontrivial")
 	dp := dependency.NewProvider("dependency")
+	// a second provider of the same process with another tag name, used on the same struct
+	// types first: whatever a provider learns about a struct type must not leak into a
+	// provider that reads other tags
+	primer := dependency.NewProvider("inject")
+	for n := 0; n < c10Names; n++ {
+		_ = primer.SetDefault(c10Name(n), fmt.Sprintf("primer-%s", c10Name(n)))
+	}
 	model := &c10Model{explicit: map[int]*c10Def{}, deflt: map[int]*c10Def{}, memo: map[int]bool{}, invocations: map[string]int{}, defined: map[int]bool{}}
 	actualInv := map[string]int{}
 	instances := map[int]interface{}{} // first instance handed out per name
@@ -189,9 +196,11 @@ func c10Run(inI interface{}, env *Env) *Failure {
 			if f.Optional {
 				tag = "?" + tag
 			}
-			sf = append(sf, reflect.StructField{Name: fmt.Sprintf("F%d", i), Type: reflect.TypeOf((*interface{})(nil)).Elem(), Tag: reflect.StructTag(fmt.Sprintf(`dependency:"%s"`, tag))})
+			sf = append(sf, reflect.StructField{Name: fmt.Sprintf("F%d", i), Type: reflect.TypeOf((*interface{})(nil)).Elem(), Tag: reflect.StructTag(fmt.Sprintf(`dependency:"%s" inject:"?%s"`, tag, c10Name((f.To+1+i)%c10Names)))})
 		}
-		return reflect.New(reflect.StructOf(sf))
+		t := reflect.StructOf(sf)
+		_ = primer.InjectTo(reflect.New(t).Interface())
+		return reflect.New(t)
 	}
 	var mkFactory func(d *c10Def) app.Factory
 	mkFactory = func(d *c10Def) app.Factory {
